@@ -330,4 +330,139 @@ theorem linear_covers (src dst : Shape) (A fwd : Aff) (hdet : A.det ≠ 0)
   have := nonlinear_covers_partial src dst (linTr A) (linTr fwd) 2 pad al hal dy dx hdy hdx (A.apply c) hqx hqy henvS henvD
   exact this
 
+
+/-- **Separated ⇒ zero area (any point transform, any alignment).**  When every finite sampled
+boundary image lies beyond the source image grown by `padding` on one side, the source region
+has zero area and the destination region is `0:0, 0:0`.  (With alignment this relies on the
+repaired `_relative_rois`: alignment may not revive an empty padded overlap.) -/
+theorem separated_empty (src dst : Shape) (back fwd : PtTr) (pps : Nat) (pad : Int) (al : Option Int)
+    (hs : 0 ≤ src.1 ∧ 0 ≤ src.2)
+    (h : (∀ p ∈ finitePts (srcSamples dst back pps), p.1 + pad ≤ 0) ∨
+         (∀ p ∈ finitePts (srcSamples dst back pps), (src.2 : Rat) ≤ p.1 - pad) ∨
+         (∀ p ∈ finitePts (srcSamples dst back pps), p.2 + pad ≤ 0) ∨
+         (∀ p ∈ finitePts (srcSamples dst back pps), (src.1 : Rat) ≤ p.2 - pad)) :
+    let r := relativeRois src dst back fwd pps pad al
+    ROI.isEmpty r.1 = true ∧ r.2 = emptyROI := by
+  have e := fromPoints_separated (srcSamples dst back pps) src.1 src.2 pad hs.1 hs.2 h
+  simp only [srcSamples] at e
+  simp only [relativeRois]
+  cases al with
+  | none => simp [e]
+  | some a =>
+    by_cases h0 : ROI.isEmpty (fromPoints ((roiBoundary (⟨0, dst.1⟩, ⟨0, dst.2⟩) pps).map back) src.1 src.2 pad (some a)) = true
+    · simp [e, h0]
+    · simp [e, h0, emptyROI, ROI.isEmpty]
+
+/-- Affine instance: all four corner images of the destination rectangle beyond the padded
+source image on one side ⇒ both regions have zero area. -/
+theorem linear_separated_empty (src dst : Shape) (A fwd : Aff) (pad : Int) (al : Option Int)
+    (hs : 0 ≤ src.1 ∧ 0 ≤ src.2)
+    (h : (∀ c ∈ roiBoundary (⟨0, dst.1⟩, ⟨0, dst.2⟩) 2, (A.apply c).1 + pad ≤ 0) ∨
+         (∀ c ∈ roiBoundary (⟨0, dst.1⟩, ⟨0, dst.2⟩) 2, (src.2 : Rat) ≤ (A.apply c).1 - pad) ∨
+         (∀ c ∈ roiBoundary (⟨0, dst.1⟩, ⟨0, dst.2⟩) 2, (A.apply c).2 + pad ≤ 0) ∨
+         (∀ c ∈ roiBoundary (⟨0, dst.1⟩, ⟨0, dst.2⟩) 2, (src.1 : Rat) ≤ (A.apply c).2 - pad)) :
+    let r := relativeRois src dst (linTr A) (linTr fwd) 2 pad al
+    ROI.isEmpty r.1 = true ∧ r.2 = emptyROI := by
+  apply separated_empty src dst (linTr A) (linTr fwd) 2 pad al hs
+  simp only [srcSamples, finitePts_linTr, List.mem_map, forall_exists_index, and_imp, forall_apply_eq_imp_iff₂]
+  exact h
+
+/-! ## scale and read-shrink -/
+
+/-- For a scale+translation map the reported per-axis scales are the destination-to-source
+pixel-size ratios `|sx|, |sy|` (so `scale` is the smaller of them). -/
+theorem scale_is_min_ratio (A : Aff) (n : Rat) (hb : A.b = 0) (hd : A.d = 0) (hn : 0 < n)
+    (hroot : n * n = A.a * A.a + A.d * A.d) :
+    scale2 A n = (rabs A.a, rabs A.e) ∧
+    min (scale2 A n).1 (scale2 A n).2 = min (rabs A.a) (rabs A.e) := by
+  have hna : n = rabs A.a := by
+    rw [hd] at hroot
+    unfold rabs
+    split_ifs with c
+    · nlinarith
+    · have hc : 0 ≤ A.a := not_lt.mp c
+      nlinarith
+  have e : scale2 A n = (rabs A.a, rabs A.e) := by
+    simp only [scale2, Aff.det, hb, zero_mul, sub_zero, Prod.mk.injEq]
+    refine ⟨hna, ?_⟩
+    have hne : n ≠ 0 := ne_of_gt hn
+    rw [div_eq_iff hne, hna]
+    unfold rabs
+    split_ifs <;> nlinarith
+  rw [e]
+  exact ⟨rfl, rfl⟩
+
+/-- The read-shrink factor is a positive integer. -/
+theorem read_shrink_pos_int (scale tol : Rat) (rs : Int) (h : pickReadScale scale tol = .ok rs) : 1 ≤ rs := by
+  unfold pickReadScale at h
+  split_ifs at h with c1 c2
+  · simp only [Except.ok.injEq] at h; omega
+  · simp only [Except.ok.injEq] at h
+    have hs : 1 ≤ scale := not_lt.mp c2
+    have hfl : 1 ≤ scale.floor := by rw [Rat.le_floor_iff]; exact_mod_cast hs
+    subst h
+    simp only [maybeInt, splitFloat_nonneg scale (by linarith)]
+    split_ifs with c3 c4 c5
+    · have : (scale.floor : Rat) + 1 = ((scale.floor + 1 : Int) : Rat) := by push_cast; ring
+      rw [this, trunc_nonneg _ (by exact_mod_cast (by omega : (0 : Int) ≤ scale.floor + 1)), floor_intCast']
+      omega
+    · rw [trunc_nonneg _ (by linarith)]; exact hfl
+    · rw [trunc_nonneg _ (by exact_mod_cast (by omega : (0 : Int) ≤ scale.floor)), floor_intCast']
+      exact hfl
+    · rw [trunc_nonneg _ (by linarith)]; exact hfl
+
+/-- The read-shrink factor never exceeds the scale by `tol` or more (and is 1 for scales
+below 1), and is more than `scale - 1`: it is `⌊scale⌋`, or the next integer when the scale is
+within `tol` below it. -/
+theorem read_shrink_bound (scale tol : Rat) (rs : Int) (h : pickReadScale scale tol = .ok rs) :
+    ((rs : Rat) ≤ 1 ∨ (rs : Rat) < scale + tol) ∧ (rs : Rat) ≤ max 1 (max scale (scale + tol)) ∧ scale - 1 < rs := by
+  unfold pickReadScale at h
+  split_ifs at h with c1 c2
+  · simp only [Except.ok.injEq] at h
+    subst h
+    refine ⟨Or.inl (by simp), by simp, by push_cast; linarith⟩
+  · simp only [Except.ok.injEq] at h
+    have hs : 1 ≤ scale := not_lt.mp c2
+    have f1 := Rat.floor_le scale
+    have f2 : scale < (scale.floor : Rat) + 1 := by
+      have := Rat.lt_floor_add_one scale; push_cast at this; exact this
+    have key : (rs : Rat) = scale.floor ∨
+        ((rs : Rat) = (scale.floor : Rat) + 1 ∧ rabs (scale - scale.floor - 1) < tol ∧ scale - scale.floor > 1 / 2) := by
+      subst h
+      simp only [maybeInt, splitFloat_nonneg scale (by linarith)]
+      split_ifs with c3 c4 c5
+      · right
+        have : (scale.floor : Rat) + 1 = ((scale.floor + 1 : Int) : Rat) := by push_cast; ring
+        rw [this, trunc_nonneg _ (by
+          have : (0 : Rat) ≤ scale.floor := by linarith [Rat.le_floor_iff.mp (show (1 : Int) ≤ scale.floor from by
+            rw [Rat.le_floor_iff]; exact_mod_cast hs)]
+          exact_mod_cast (by push_cast; linarith)), floor_intCast']
+        exact ⟨by push_cast; ring, c4, c3⟩
+      · left; rw [trunc_nonneg _ (by linarith)]
+      · left
+        have h0 : (0 : Rat) ≤ (scale.floor : Rat) := by
+          have : (1 : Int) ≤ scale.floor := by rw [Rat.le_floor_iff]; exact_mod_cast hs
+          have : (1 : Rat) ≤ (scale.floor : Rat) := by exact_mod_cast this
+          linarith
+        rw [trunc_nonneg _ h0, floor_intCast']
+      · left; rw [trunc_nonneg _ (by linarith)]
+    rcases key with k | ⟨k, k2, k3⟩
+    · rw [k]
+      refine ⟨?_, ?_, by linarith⟩
+      · by_cases ht : 0 < tol
+        · right; linarith
+        · -- non-positive tolerance: still never above the scale
+          by_cases h1 : (scale.floor : Rat) ≤ 1
+          · left; exact h1
+          · right
+            exfalso
+            exact absurd ht (by
+              intro; exact h1 (by linarith [ht]))
+      · exact le_trans (le_trans f1 (le_max_left _ _)) (le_max_right _ _)
+    · rw [k]
+      have : scale - scale.floor - 1 < 0 := by linarith
+      have k2' : -(scale - scale.floor - 1) < tol := by simpa [rabs, this] using k2
+      refine ⟨Or.inr (by linarith), ?_, by linarith⟩
+      exact le_trans (le_trans (by linarith) (le_max_right scale (scale + tol))) (le_max_right _ _)
+
 end OdcGeo.C03
